@@ -63,7 +63,7 @@ class C15(Check):
     ASSUMPTIONS = ['items of line framing contain no \\n (stated domain of the property)',
                    'frames fit the prefix size (len < 2**(8*prefix_size))']
     ANCHORS = ['rxsci/framing/line.py', 'rxsci/framing/length_prefix.py']
-    REQUIRED_TAGS = ['reentrant-consumer', 'item-is-a-framed-batch-cut-on-its-record-boundaries', 'line', 'lp1', 'lp2', 'lp4', 'lp8', 'little', 'big', 'empties', 'trunc',
+    REQUIRED_TAGS = ['large-frames-of-exactly-the-same-size', 'reentrant-consumer', 'item-is-a-framed-batch-cut-on-its-record-boundaries', 'line', 'lp1', 'lp2', 'lp4', 'lp8', 'little', 'big', 'empties', 'trunc',
                      'cut-in-prefix', 'cut-in-frame', 'empty-list', 'empty-item', 'stream>64KiB']
 
     _ops = {}
@@ -163,6 +163,17 @@ class C15(Check):
                 cuts = tuple(range(size, len(s), size)) if rng.random() < 0.7 else chunking.random_cuts(rng, len(s), 30)
                 yield self._mk(big, items, cuts, empties=False)
                 continue
+            if k % 150 == 45:
+                # fixed-size large records (tensors of one shape): frames of 1-1.5 MiB, all of EXACTLY the same size, arriving in
+                # 64 KiB blocks - a receive buffer kept from one frame to the next must start empty
+                env = cfgs[1 + 4 + ((k // 150) % 4)]
+                size = [1 << 20, (1 << 20) + (1 << 19), (1 << 20) + 7][(k // 150) % 3]
+                items = [bytes([j + 1]) * size for j in range(3)]
+                if (k // 150) % 2:
+                    items.insert(1, b'small')
+                s = _reference_stream(env, items)
+                yield dict(self._mk(env, items, tuple(range(65536, len(s), 65536)), empties=False), equal_large=True)
+                continue
             if k % 150 == 30:
                 # envelopes: an item that is itself a framed batch of large records in the SAME framing, cut on the inner
                 # record boundaries - every chunk but the first then looks like one complete frame while the outer frame is
@@ -208,6 +219,8 @@ class C15(Check):
             out.tags.append('line')
         else:
             out.tags += ['lp%d' % case['prefix'], case['byteorder']]
+        if case.get('equal_large'):
+            out.tags.append('large-frames-of-exactly-the-same-size')
         if case.get('envelope'):
             out.tags.append('item-is-a-framed-batch-cut-on-its-record-boundaries')
         if not items:
